@@ -43,12 +43,16 @@ var c15Single = []c15Op{
 	{"sort().push(5)", func(a func() Expr) Expr { return CallE(Mem(CallE(Mem(a(), "sort")), "push"), N("5")) }},
 	{"sort()[0]=6", func(a func() Expr) Expr { return Asg("=", Idx(CallE(Mem(a(), "sort")), N("0")), N("6")) }},
 	// a null stored past the end is an ordinary element wherever it moves to; contains goes by ==, whatever the kinds
-	{"[len+1]=null", func(a func() Expr) Expr { return Asg("=", Idx(a(), Bin("+", CallE(Mem(a(), "length")), N("1"))), &NullLit{}) }},
+	{"[len+1]=null", func(a func() Expr) Expr {
+		return Asg("=", Idx(a(), Bin("+", CallE(Mem(a(), "length")), N("1"))), &NullLit{})
+	}},
 	{"[1]=5", func(a func() Expr) Expr { return Asg("=", Idx(a(), N("1")), N("5")) }},
 	{"contains('1')", c15Call("contains", S("1"))},
 	// pushing the null read from beyond the end: the new element is an ordinary null, a later store into it stays in this array
 	// a store far past the end pads with nulls; each padded slot is an element of its own
-	{"[len+2]=4", func(a func() Expr) Expr { return Asg("=", Idx(a(), Bin("+", CallE(Mem(a(), "length")), N("2"))), N("4")) }},
+	{"[len+2]=4", func(a func() Expr) Expr {
+		return Asg("=", Idx(a(), Bin("+", CallE(Mem(a(), "length")), N("2"))), N("4"))
+	}},
 	{"[-2]=6", func(a func() Expr) Expr { return Asg("=", Idx(a(), Un("-", N("2"))), N("6")) }},
 	{"push([len+2])", func(a func() Expr) Expr {
 		return CallE(Mem(a(), "push"), Idx(a(), Bin("+", CallE(Mem(a(), "length")), N("2"))))
